@@ -242,11 +242,13 @@ def run(ctx):
             else:
                 kind = name.split("_")[1]
                 # counters = self.recorders.iter().map(closure).collect()
-                ctor = [c for c in nonforeign_calls(f) if c.is_(f"Fanout{kind.capitalize()}::from_{kind}s")]
-                ok = len(ctor) == 1
-                detail = "no FanoutX::from_xs call"
+                # the Fanout<Kind> aggregate built here (its constructor helper is spliced in)
+                sy = Sym(f)
+                aggs = [st for _, _, st in f.body.stmts() if st["k"] == "assign" and st["rv"]["k"] == "agg" and (st["rv"].get("adt") or "").endswith(f"Fanout{kind.capitalize()}")]
+                ok = len(aggs) == 1 and len(aggs[0]["rv"]["ops"]) == 1
+                detail = f"{len(aggs)} Fanout{kind.capitalize()} values built"
                 if ok:
-                    v = strip_sym(arg_syms(ctor[0])[0])
+                    v = strip_sym(sy.operand(aggs[0]["rv"]["ops"][0]))
                     chain = []
                     cur = v
                     while cur[0] == "call":
